@@ -198,7 +198,14 @@ struct Dataset {
     events: Arc<Vec<(usize, Decimal)>>,
 }
 
+/// Dataset entries with this "instrument" are `MarketStreamEvent::Reconnecting` markers (recorded market
+/// data of a live system contains them wherever the venue connection dropped).
+const MARK: usize = 9;
+
 fn market_event(stream: u64, seq: u64, instr: usize, price: Decimal) -> MarketStreamEvent<InstrumentIndex, Tick> {
+    if instr == MARK {
+        return MarketStreamEvent::Reconnecting(ExchangeId::BinanceSpot);
+    }
     MarketStreamEvent::Item(MarketEvent {
         time_exchange: fixtures::t((seq as i64 + 1) * 1000),
         time_received: fixtures::t((seq as i64 + 1) * 1000),
@@ -280,6 +287,11 @@ struct Obs {
     /// bookkeeping of the strategy: sequence numbers it already traded at
     sent_marks: Vec<u64>,
     signalled_start: bool,
+    /// one entry per `Reconnecting` marker the engine was fed: number of market items processed before it
+    disconnects: Vec<u64>,
+    /// dataset index of the last marker processed (-1: none); markers occupy dataset indices too
+    last_marker_idx: i64,
+    marker_seen: bool,
 }
 
 #[derive(Debug, Clone)]
@@ -327,7 +339,8 @@ impl AlgoStrategy for BtStrategy {
         }
         if let Some((stream, seq, _)) = state.global.market.last().copied() {
             // decide on the event just processed (each sequence number at most once)
-            if let Some((instr, buy, qty)) = self.params.trades.get(&seq) {
+            let marker_idx = if obs.marker_seen { obs.last_marker_idx } else { -1 };
+            if let Some((instr, buy, qty)) = self.params.trades.get(&seq).filter(|_| marker_idx < seq as i64) {
                 let already = obs.sent_for_seq(seq);
                 let st = state.instruments.instrument_index(&InstrumentIndex(*instr));
                 if !already {
@@ -345,7 +358,8 @@ impl AlgoStrategy for BtStrategy {
             let _ = trades_seen;
             if self.gated && opens.is_empty() && open_orders == 0 && obs.all_sent_resolved() {
                 let gate = gate_of(&self.gates, stream);
-                gate.released.fetch_max(seq as i64, Ordering::SeqCst);
+                // a marker just processed sits at a dataset index of its own, after the last item
+                gate.released.fetch_max((seq as i64).max(marker_idx), Ordering::SeqCst);
                 gate.notify.notify_waiters();
                 gate.notify.notify_one();
             }
@@ -388,9 +402,18 @@ impl ClosePositionsStrategy for BtStrategy {
     }
 }
 
-impl<Clock, State, ExecutionTxs, Risk> OnDisconnectStrategy<Clock, State, ExecutionTxs, Risk> for BtStrategy {
+impl<Clock, ExecutionTxs, Risk> OnDisconnectStrategy<Clock, St, ExecutionTxs, Risk> for BtStrategy {
     type OnDisconnect = ();
-    fn on_disconnect(_: &mut Engine<Clock, State, ExecutionTxs, Self, Risk>, _: ExchangeId) {}
+    fn on_disconnect(engine: &mut Engine<Clock, St, ExecutionTxs, Self, Risk>, _: ExchangeId) {
+        // a `Reconnecting` marker of the dataset reached the engine: record WHERE in the item sequence
+        let items = engine.state.global.market.len() as u64;
+        let last_item = engine.state.global.market.last().map(|m| m.1 as i64).unwrap_or(-1);
+        let mut obs = engine.strategy.obs.lock().unwrap();
+        obs.disconnects.push(items);
+        let prev = if obs.marker_seen { obs.last_marker_idx } else { -1 };
+        obs.last_marker_idx = prev.max(last_item) + 1;
+        obs.marker_seen = true;
+    }
 }
 impl<Clock, State, ExecutionTxs, Risk> OnTradingDisabled<Clock, State, ExecutionTxs, Risk> for BtStrategy {
     type OnTradingDisabled = ();
@@ -535,7 +558,7 @@ fn judge_single(case: &Case, b: usize, obs: &Obs, dg: &Digest, out: &mut Outcome
     out.checks += 3;
     // (i) whole dataset, once, in order, from one stream instance
     let seqs: Vec<u64> = obs.market.iter().map(|m| m.1).collect();
-    let want: Vec<u64> = (0..n as u64).collect();
+    let want: Vec<u64> = (0..n as u64).filter(|k| case.events[*k as usize].0 != MARK).collect();
     if seqs != want {
         let missing: Vec<u64> = want.iter().filter(|s| !seqs.contains(s)).copied().take(8).collect();
         let dup = seqs.len() > seqs.iter().collect::<std::collections::BTreeSet<_>>().len();
@@ -546,9 +569,30 @@ fn judge_single(case: &Case, b: usize, obs: &Obs, dg: &Digest, out: &mut Outcome
     if streams.len() > 1 {
         return Err(("events_of_several_stream_instances_in_one_backtest", format!("bt{b}: {streams:?}")));
     }
-    for (k, (_, _, instr)) in obs.market.iter().enumerate() {
-        if *instr != case.events[k].0 {
+    for (_, k, instr) in obs.market.iter() {
+        if *instr != case.events[*k as usize].0 {
             return Err(("dataset_event_content_changed", format!("bt{b}: event {k}")));
+        }
+    }
+    // reconnect markers of the dataset are events too: each must reach the engine once, in place
+    out.checks += 1;
+    let mut items_before = 0u64;
+    let mut want_marks = vec![];
+    for (i, _) in case.events.iter() {
+        if *i == MARK {
+            want_marks.push(items_before);
+        } else {
+            items_before += 1;
+        }
+    }
+    if obs.disconnects != want_marks {
+        let sig = if obs.disconnects.len() < want_marks.len() { "dataset_events_skipped" } else if obs.disconnects.len() > want_marks.len() { "dataset_event_processed_twice" } else { "dataset_events_out_of_order" };
+        return Err((sig, format!("backtest bt{b}: the dataset holds {} reconnect markers after {:?} market items; the engine was fed {} after {:?} items", want_marks.len(), &want_marks[..want_marks.len().min(10)], obs.disconnects.len(), &obs.disconnects[..obs.disconnects.len().min(10)])));
+    }
+    if !want_marks.is_empty() {
+        out.cells.push("dataset_with_reconnect_markers".into());
+        if case.events.last().map(|e| e.0) == Some(MARK) {
+            out.cells.push("dataset_ends_with_reconnect_marker".into());
         }
     }
     // (ii) ownership of everything the engine saw
@@ -572,6 +616,9 @@ fn judge_single(case: &Case, b: usize, obs: &Obs, dg: &Digest, out: &mut Outcome
         let mut expected_fills = vec![];
         let mut last_price: [Option<Decimal>; N_INSTR] = [None; N_INSTR];
         for (k, (i, p)) in case.events.iter().enumerate() {
+            if *i == MARK {
+                continue;
+            }
             last_price[*i] = Some(Decimal::from(*p));
             if let Some((instr, buy, qty)) = case.params[b].trades.get(&(k as u64)) {
                 if let Some(price) = last_price[*instr] {
@@ -640,8 +687,14 @@ fn gen_case(rng: &mut Rng, workers: usize, gated: bool, small: bool) -> Case {
     let long = rng.chance(1, 10);
     let n = if small { rng.range_u(5, 20) } else if workers == 0 { rng.range_u(20, if long { 2000 } else { 200 }) } else { rng.range_u(20, 300) };
     let mut price = [rng.range(100, 1000), rng.range(10, 100)];
+    let with_marks = rng.chance(1, 3);
     let events: Vec<(usize, i64)> = (0..n)
-        .map(|_| {
+        .map(|k| {
+            // reconnect markers: never the very first entry (the gated source learns its stream instance from
+            // the first item), anywhere else incl. the last entry and back to back
+            if with_marks && k > 0 && (rng.chance(1, 12) || (k + 1 == n && rng.chance(1, 2))) {
+                return (MARK, 0);
+            }
             let i = rng.usize_below(N_INSTR);
             price[i] = (price[i] + rng.range(-5, 5)).max(1);
             (i, price[i])
@@ -657,7 +710,10 @@ fn gen_case(rng: &mut Rng, workers: usize, gated: bool, small: bool) -> Case {
                 // never at sequence number 0: the historical clock restarts its wall-time part at the first
                 // event, so an order placed there can carry an exchange time OLDER than the initial account
                 // snapshot and its balance update is then (legitimately, C09) ignored by the engine
-                trades.insert(1 + rng.below(n as u64 - 1), (rng.usize_below(N_INSTR), rng.chance(2, 3), rng.range(1, 20)));
+                let at = 1 + rng.below(n as u64 - 1);
+                if events[at as usize].0 != MARK {
+                    trades.insert(at, (rng.usize_below(N_INSTR), rng.chance(2, 3), rng.range(1, 20)));
+                }
             }
             Params { trades }
         })
@@ -750,6 +806,8 @@ fn main() {
             "concurrent:32+",
             "solo_vs_concurrent_compared",
             "backtest_with_fills",
+            "dataset_with_reconnect_markers",
+            "dataset_ends_with_reconnect_marker",
         ] {
             report.require(c);
         }
